@@ -69,6 +69,35 @@ def path_arg_ids(path):
     return out
 
 
+def under_ambient(ambient, fn):
+    """F6: perform a read while the HOST is in an unusual but legal state - little stack left,
+    or numpy told to raise on floating-point errors. What the read itself returns then may
+    legitimately differ (it may fail); what matters is that it leaves nothing behind."""
+    if not ambient:
+        return fn()
+    if "errstate" in ambient:
+        import numpy
+
+        with numpy.errstate(all=ambient["errstate"]):
+            return fn()
+    if "deep" in ambient:
+        import sys
+
+        depth, f = 0, sys._getframe()
+        while f is not None:
+            depth += 1
+            f = f.f_back
+        extra = sys.getrecursionlimit() - int(ambient["deep"]) - depth - 2
+
+        def rec(n):
+            if n <= 0:
+                return fn()
+            return rec(n - 1)
+
+        return rec(max(extra, 0))
+    return fn()
+
+
 def attempt(fn):
     """Run fn(); exceptions raised by the library are outcomes, not harness errors."""
     try:
@@ -202,13 +231,14 @@ class World:
             self.handles["%s.%s" % (cid, hid)] = (sid, root, get_arg)
             d, s, k, x = observe(root)
             ev.update(d=d, s=s, k=k, x=x, sid=sid, private=private)
-        elif kind == "READ":
-            _k, cid, hid, path = op
+        elif kind in ("READ", "READX"):
+            cid, hid, path = op[1], op[2], op[3]
+            ambient = op[4] if kind == "READX" else None
             key = "%s.%s" % (cid, hid)
             if key not in self.handles:
                 raise PathError("no handle %s" % key)
             sid, root, get_arg = self.handles[key]
-            v = attempt(lambda: resolve(root, path, get_arg))
+            v = attempt(lambda: under_ambient(ambient, lambda: resolve(root, path, get_arg)))
             d, s, k, x = observe(v)
             ev.update(d=d, s=s, k=k, x=x, sid=sid)
             if isinstance(v, (np.ndarray, list)) and len(self.held) < 400:
